@@ -74,7 +74,29 @@ def r111(prog, chk):
     rt = A.returns_of(rf.node)
     ok = len(sv) == 1 and len(rt) == 1 and isinstance(rt[0].value, ast.Call) and A.callee_name(rt[0].value) == "TTFont" and T(A.kwarg(rt[0].value, "cfg")) == f"{rf.params()[0]}.cfg"
     chk.ob("R11.1", f"{rf.short}|save to memory and re-open with the same config", ok, where(rf), detail="font.save(stream); TTFont(stream, cfg=font.cfg)", message="_reloadFont does not round-trip the font through its binary form")
-    chk.minimum("R11.1", 5)
+    # the reload is the same font, recompiled the way the final save will compile it: no switch of the font object is flipped
+    # around the intermediate save (with renaming off there is no intermediate save, so anything it freezes differs between on and off)
+    fp = rf.params()[0]
+    writes = [n for n in A.body_nodes(rf.node)
+              if (isinstance(n, (ast.Assign, ast.AugAssign, ast.Delete)) and any(isinstance(x, (ast.Attribute, ast.Subscript)) and isinstance(getattr(x, "ctx", None), (ast.Store, ast.Del))
+                                                                                 and any(isinstance(y, ast.Name) and y.id == fp for y in ast.walk(x)) for x in ast.walk(n)))
+              or (isinstance(n, ast.Call) and isinstance(n.func, ast.Name) and n.func.id in ("setattr", "delattr") and n.args and T(n.args[0]) == fp)]
+    okw = not writes and len(sv) == 1 and len(sv[0].args) == 1 and not sv[0].keywords and T(sv[0].func.value) == fp \
+        and len(rt) == 1 and isinstance(rt[0].value, ast.Call) and {k.arg for k in rt[0].value.keywords} <= {"cfg"} and len(rt[0].value.args) == 1
+    chk.ob("R11.1", f"{rf.short}|the font object is saved and re-opened with nothing switched on or off", okw, where(rf, writes[0]) if writes else where(rf),
+           detail="no attribute of the font is written; save(stream) and TTFont(stream, cfg=...) take no other option",
+           message=f"{rf.short} changes the font object or the save / open options around the intermediate save (`{T(writes[0], 60) if writes else T(sv[0], 50) if sv else ''}`): values the "
+                   f"final save would recalculate (bounding boxes, hhea / maxp extrema, timestamps) are frozen only when glyphs are renamed, so renaming changes more than names")
+    n_sw = 0
+    for fi in ix.functions.values():
+        if isinstance(fi.node, ast.Lambda):
+            continue
+        for x in A.body_nodes(fi.node):
+            if isinstance(x, ast.Attribute) and x.attr in ("recalcBBoxes", "recalcTimestamp") and isinstance(x.ctx, (ast.Store, ast.Del)):
+                n_sw += 1
+                chk.ob("R11.1", f"{fi.short}|{A.keytext(fi.node, ix.enclosing_stmt(x))}", False, where(fi, x), detail=f"{x.attr} written",
+                       message=f"{fi.short} switches `{x.attr}` of a font object: what fontTools recalculates when the font is compiled then depends on the path the font took through post-processing")
+    chk.minimum("R11.1", 6)
 
 
 # ----------------------------------------------------------------------------- R11.2
@@ -436,6 +458,10 @@ def r117(prog, chk):
 
 
 MUTANTS = [
+    M("intermediate save of the renaming reload does not recalculate bounding boxes (seeded C11i)", "ufo2ft/postProcessor.py", "_reloadFont",
+      "font.save(stream)", "recalcBBoxes, font.recalcBBoxes = (font.recalcBBoxes, False)\nfont.save(stream)\nfont.recalcBBoxes = recalcBBoxes", rule="R11.1"),
+    M("reload re-opens the font with recalcBBoxes off", "ufo2ft/postProcessor.py", "_reloadFont",
+      "return TTFont(stream, cfg=font.cfg)", "return TTFont(stream, cfg=font.cfg, recalcBBoxes=False)", rule="R11.1"),
     M("variable fonts post-processed with the last sub-space's glyph set (seeded C11g)", "ufo2ft/_compilers/baseCompiler.py", "BaseInterpolatableCompiler.compile_variable",
       "self.postprocess(varfont, ufo, glyphSet=None, info=info)", "self.postprocess(varfont, ufo, glyphSet=self.glyphSets[self.instantiator.default_source_idx], info=info)", rule="R11.7"),
     M("CFF2 re-keyed even when not yet decompiled (seeded C11d shape)", "ufo2ft/postProcessor.py", "PostProcessor.rename_glyphs",
